@@ -1,387 +1,394 @@
 import SE.Proofs.GlobTemplate
+import SE.Props.C04
 /-
 C11 — Capture references in names and labels expand as documented.
 
-`expandSpec caps` (SE/Spec/Mapping.lean) is the documented syntax: `$n` / `${n}` with the longest
-name, numbered from 1, `$$` ↦ `$`, everything else copied. Two implementations are compared with
-it: Go's `regexp.Expand` (`rxExpand`, used for regex rules) and the glob rules' own
-`NewTemplateFormatter`/`Format` (`compileTemplate`/`Formatter.format`).
+Specification. `expandSpec caps` (SE/Spec/Mapping.lean) is the template syntax Go documents for
+`regexp.Expand`, with captures numbered from 1 and no named groups: a reference is `$name` or `${name}`
+where `name` is the longest run of letters, digits and `_` (in Go's, i.e. Unicode's, sense: the
+rune-wise `extract`, modelled by `rxExtractU`/`nameRune`); `$$` is a literal `$`; a purely numeric name
+`n ≥ 1` (decimal, no leading zero) is replaced by the n-th capture, empty when out of range; every other
+name by the empty string; a `$` that starts no reference and every other byte are copied. The result is
+an `Option`: `none` = a reference name contains a rune outside the modelled Unicode fragment (lead bytes
+0xCA..0xF4), where nothing is specified.
 
-* regex side: equal to the specification (`regex_expand_eq_spec`) up to the two things the
-  specification leaves out on purpose — `$0` and named groups — and up to one genuine divergence:
-  Go's `extract` scans a reference name rune by rune (`unicode.IsLetter`/`IsDigit`/`_`), the
-  documented syntax and the glob formatter byte by byte over `[A-Za-z0-9_]`. In `$1é` the regex side
-  reads the name `1é` (no number, no group: empty), the other two read `$1` followed by `é`
-  (`unicode_letter_after_ref_counterexample`). The theorem therefore carries the decidable guard
-  `refsAsciiFollowed` (no reference name and no lone `$` is directly followed by a byte ≥ 0x80);
-  `rxExpand` answers `none` where a name rune is outside the modelled fragment of `nameRune`.
-* glob side: all three defects of `NewTemplateFormatter` found with this property are repaired:
-    - adjacent references (4d631d3): the reference regex is `\$\{?([a-zA-Z0-9_]+)\}?`, the name class no
-      longer contains `$` (`adjacent_refs_expand`);
-    - a literal `%` in a template that has a reference (b74fba2): `%` is escaped to `%%` before the
-      `Sprintf` format string is built (`percent_literal_repaired`);
-    - a reference text that is a prefix of another one (b74fba2): all references are substituted in ONE
-      left-to-right pass instead of one `strings.ReplaceAll` per reference (`ref_prefix_repaired`).
-  Proved now: the formatter equals the specification under the decidable guard `SafeTemplate`
-  (SE/Spec/TemplateRefs.lean; `glob_format_eq_spec_partial`, `glob_regex_agree_partial`), which since
-  b74fba2 no longer restricts `%` in literals nor how reference texts relate to each other; for all
-  templates without `$$` in which the formatter's regex finds no reference (`no_ref_identity`); and —
-  for EVERY template, no guard — that `Format` stays inside the modelled `Sprintf` fragment
-  (`format_total`: since `%` is escaped the result is never "unmodelled").
-  The full-strength statement is still FALSE (`glob_format_statement_false`): what remains are the
-  corners in which the formatter's reference syntax differs from the documented one — `$$` is no
-  escape, `$01` is read as capture 1, an unclosed `${1` is accepted, a stray `}` after `$1` is
-  swallowed (`further_divergences`, `dollar_escape_counterexample`) — and `$1é`, where it is the
-  regex side that differs (`unicode_letter_after_ref_counterexample`). Each is excluded by the guard.
-The captures themselves (C11's `captures_correct`, and the literal-`*` defect) are not part of this
-file; here `caps` is whatever the matcher hands to the formatter.
+Models. Two implementations are compared with it: Go's own `regexp.Expand` (`rxExpand`, used for regex
+rules) and the glob rules' `NewTemplateFormatter`/`Format` (`compileTemplate`/`Formatter.format`,
+SE/Model/Template.lean): `%` is escaped, ONE left-to-right pass replaces `$$` by `$`, a usable reference
+by `%s` (recording its index) and any other well-formed reference by nothing, and `Sprintf` puts the
+captures back; a template in which the pass saw nothing is returned as it is. `Format` answers `none`
+exactly when the template is flagged `unmodelled`.
+
+Proved — for ALL templates, capture counts and captures, no guard:
+  * `glob_format_eq_spec`: formatter = specification (equality of `Option`s: both are `none` exactly
+    when a reference name has an unmodelled rune), provided the captures beyond the rule's capture count
+    are empty; unconditionally the formatter is the specification on the first `n` captures
+    (`glob_format_eq_spec_take`); the hypothesis cannot be dropped (`captures_beyond_count_matter`);
+    `glob_format_holds` is the statement `glob_format_statement` that used to be refuted here;
+  * `format_total`: `Format` never leaves the modelled `Sprintf` fragment;
+  * `regex_expand_eq_spec`: `regexp.Expand` = specification up to the two things the specification leaves
+    out on purpose, group 0 and named groups (`dollar_zero_is_outside`, `named_group_is_outside`);
+  * `glob_regex_agree`: a glob rule and its regex translation expand every template identically;
+  * `lookupGlob_expands`, `glob_lookup_expands`: the same on the level of the mapper's glob lookup.
+
+History: the five repairs of `NewTemplateFormatter` / the FSM found with this property, each recorded by
+a `decide`d theorem showing formatter = specification = the expected bytes:
+  * adjacent references (4d631d3): the name class of the formatter's reference regex contained `$`, so
+    `$1$2` was one unknown name — `adjacent_refs_expand`;
+  * a literal `%` in a template with a reference (b74fba2): the template itself was the `Sprintf` format;
+    `%` is now escaped — `percent_literal_repaired`;
+  * a reference text that is a prefix of another one (b74fba2): the references were substituted one
+    `strings.ReplaceAll` at a time, `$1` also hit the head of `$11`; now one pass — `ref_prefix_repaired`;
+  * a name component that is literally `*` was not captured (0275669; that is the captures, not the
+    expansion: SE/Props/C04.lean and C12.lean, `star_component_captured`);
+  * the reference syntax (a7bcc3e): the formatter had its own regex `\$\{?([a-zA-Z0-9_]+)\}?`, which
+    differs from `regexp.Expand` in the corners `$$`, `$$1`, `${1`, `$1}`, `$01` and, against the regex
+    side, `$1é`; it now uses `regexp.Expand`'s syntax — `reference_syntax_repaired`,
+    `unmodelled_is_flagged`. Until then C11 was proved only under a decidable guard `SafeTemplate`, with
+    counterexample theorems for the corners and `glob_format_statement_false`; guard and counterexamples
+    are gone.
 -/
 namespace SE.Props.C11
 open SE
+variable {V : Type}
 
 /-! ### glob side -/
 
-/-- The full-strength claim: for a glob rule with `caps.length` wildcards, the formatter's output
-    is the documented expansion. It does NOT hold, also after the repair of the reference regex —
-    see below. -/
+/-- **C11, glob side, unconditionally**: for every template, capture count `n` and capture list, `Format`
+    gives the documented expansion with the first `n` captures (in the real code the captures array has
+    one slot per name component, of which a rule with `n` wildcards fills the first `n`). -/
+theorem glob_format_eq_spec_take (tmpl : Bytes) (n : Nat) (caps : List Bytes) :
+    (compileTemplate tmpl n).format caps = expandSpec (caps.take n) tmpl.length tmpl :=
+  compileTemplate_format_take tmpl n caps
+
+/-- **C11, glob side**: for every template `tmpl`, every capture count `n` and all captures `caps` that
+    are empty beyond position `n`, the formatter's result is the documented expansion — as `Option`s:
+    both sides are `none` exactly when a reference name contains an unmodelled rune. The hypothesis is
+    the weakest one that does not look at the template: `compileTemplate` drops references `$k` with
+    `k > n`, the specification reads `caps.getD (k-1) []` (`captures_beyond_count_matter`). It holds when
+    `caps.length ≤ n` (`glob_format_eq_spec_le`), in particular for the captures of a glob match
+    (`glob_lookup_expands`), and for Go's captures array, whose slots beyond the `n`-th stay `""`. -/
+theorem glob_format_eq_spec (tmpl : Bytes) (n : Nat) (caps : List Bytes)
+    (hcaps : ∀ i, n ≤ i → caps.getD i [] = []) :
+    (compileTemplate tmpl n).format caps = expandSpec caps tmpl.length tmpl := by
+  apply compileTemplate_format
+  intro i
+  by_cases h : i < n
+  · simp only [h, if_true]
+  · simp only [h, if_false]; exact hcaps i (by omega)
+
+theorem glob_format_eq_spec_le (tmpl : Bytes) (n : Nat) (caps : List Bytes) (hn : caps.length ≤ n) :
+    (compileTemplate tmpl n).format caps = expandSpec caps tmpl.length tmpl := by
+  apply glob_format_eq_spec
+  intro i hi
+  rw [List.getD_eq_getElem?_getD, List.getElem?_eq_none (by omega)]
+  rfl
+
+/-- one capture per wildcard -/
+theorem glob_format_eq_spec_eq (tmpl : Bytes) (n : Nat) (caps : List Bytes) (hn : caps.length = n) :
+    (compileTemplate tmpl n).format caps = expandSpec caps tmpl.length tmpl :=
+  glob_format_eq_spec_le tmpl n caps (by omega)
+
+/-- The hypothesis of `glob_format_eq_spec` is needed: a rule compiled for one capture that is handed two
+    ignores the second, `$2` ↦ `` where the specification (which does not know `n`) says `b`. With the
+    first `n` captures (`glob_format_eq_spec_take`) both say ``. -/
+theorem captures_beyond_count_matter :
+    (compileTemplate [36, 50] 1).format [[97], [98]] = some [] ∧
+    expandSpec [[97], [98]] 2 [36, 50] = some [98] ∧
+    expandSpec ([[97], [98]].take 1) 2 [36, 50] = some [] := by decide
+
+/-- The full-strength claim: for a glob rule with `caps.length` wildcards, the formatter's output is the
+    documented expansion. (Refuted in this file until the repair a7bcc3e; the right-hand side was
+    `some (expandSpec …)` while the specification was total.) -/
 def glob_format_statement : Prop :=
   ∀ (tmpl : Bytes) (caps : List Bytes),
-    (compileTemplate tmpl caps.length).format caps = some (expandSpec caps tmpl.length tmpl)
+    (compileTemplate tmpl caps.length).format caps = expandSpec caps tmpl.length tmpl
 
-/-- Repaired defect `template_adjacent_refs`: `$1$2` with captures `a`,`b` gives `ab` (before the
-    repair the name class of the formatter's regex contained `$`, `1$2` was read as one non-numeric
-    name and the result was the empty string). The general statement is `glob_format_eq_spec_partial`
-    with the weakened guard; see the non-vacuity examples at the end. -/
+/-- … and it holds. -/
+theorem glob_format_holds : glob_format_statement :=
+  fun tmpl caps => glob_format_eq_spec_eq tmpl caps.length caps rfl
+
+/-- **`Format` is total on modelled templates.** For every template, capture count and capture list the
+    result is `none` only when the template is flagged `unmodelled` (a reference name with a rune outside
+    `nameRune`'s fragment): the format string consists of `%%`, `%s` and non-`%` bytes only, the modelled
+    fragment of `fmt.Sprintf` is never left. -/
+theorem format_total (tmpl : Bytes) (n : Nat) (caps : List Bytes) :
+    ((compileTemplate tmpl n).format caps).isSome = true ↔ (compileTemplate tmpl n).unmodelled = false :=
+  compileTemplate_format_isSome tmpl n caps
+
+/-- the flag is the specification's `none` (for any captures) -/
+theorem unmodelled_iff_spec_none (tmpl : Bytes) (n : Nat) (caps : List Bytes) :
+    (compileTemplate tmpl n).unmodelled = true ↔ expandSpec (caps.take n) tmpl.length tmpl = none := by
+  rw [← glob_format_eq_spec_take, ← Option.not_isSome_iff_eq_none, format_total]
+  simp
+
+/-- A template without `$` is returned verbatim, whatever else it contains (`%` …) and whatever the
+    captures are, and that is the documented expansion. -/
+theorem no_dollar_identity (tmpl : Bytes) (n : Nat) (caps : List Bytes) (h : cDollar ∉ tmpl) :
+    (compileTemplate tmpl n).format caps = some tmpl ∧ expandSpec caps tmpl.length tmpl = some tmpl :=
+  ⟨by rw [glob_format_eq_spec_take]; exact expandSpec_no_dollar _ _ _ h, expandSpec_no_dollar _ _ _ h⟩
+
+/-! ### the repairs, on the former counterexamples -/
+
+/-- Repair 4d631d3 (`template_adjacent_refs`): `$1$2` with captures `a`, `b` gives `ab`, the documented
+    expansion (before: `1$2` was read as one non-numeric name, result ``). -/
 theorem adjacent_refs_expand :
-    (compileTemplate [36, 49, 36, 50] 2).format [[97], [98]] = some [97, 98] := by decide
-
-/-- … which is the documented expansion -/
-theorem adjacent_refs_agree :
     (compileTemplate [36, 49, 36, 50] 2).format [[97], [98]] = some [97, 98] ∧
-    expandSpec [[97], [98]] 4 [36, 49, 36, 50] = [97, 98] := by decide
+    expandSpec [[97], [98]] 4 [36, 49, 36, 50] = some [97, 98] := by decide
 
-/-- Repaired defect `template_has_percent` (b74fba2): a literal `%` in a template that also has a
-    reference. `100%-$1` and `50%s-$1` with one capture `foo` give `100%-foo` and `50%s-foo`, which is
-    the documented expansion. (Before the repair the template itself, with `%s` put in, was the
-    `Sprintf` format: `100%-%s` is outside the model — `none`; the real output was
-    `100%s%!(EXTRA string=foo)` — and `50%s-%s` gave `50foo-%!s(MISSING)`.) The general statement is
-    `glob_format_eq_spec_partial`, whose guard no longer mentions `%`. -/
+/-- Repair b74fba2 (`template_has_percent`): `100%-$1` and `50%s-$1` with one capture `foo` give
+    `100%-foo` and `50%s-foo`, the documented expansion (before: the template with `%s` put in was the
+    `Sprintf` format; real outputs `100%s%!(EXTRA string=foo)` and `50foo-%!s(MISSING)`). -/
 theorem percent_literal_repaired :
     ((compileTemplate [49, 48, 48, 37, 45, 36, 49] 1).format [[102, 111, 111]]
         = some [49, 48, 48, 37, 45, 102, 111, 111] ∧
-      expandSpec [[102, 111, 111]] 7 [49, 48, 48, 37, 45, 36, 49] = [49, 48, 48, 37, 45, 102, 111, 111]) ∧
+      expandSpec [[102, 111, 111]] 7 [49, 48, 48, 37, 45, 36, 49] = some [49, 48, 48, 37, 45, 102, 111, 111]) ∧
     ((compileTemplate [53, 48, 37, 115, 45, 36, 49] 1).format [[102, 111, 111]]
         = some [53, 48, 37, 115, 45, 102, 111, 111] ∧
-      expandSpec [[102, 111, 111]] 7 [53, 48, 37, 115, 45, 36, 49] = [53, 48, 37, 115, 45, 102, 111, 111]) := by
+      expandSpec [[102, 111, 111]] 7 [53, 48, 37, 115, 45, 36, 49] = some [53, 48, 37, 115, 45, 102, 111, 111]) := by
   decide
 
-/-- Repaired defect `template_ref_prefix_of_ref` (b74fba2): `$1-$11`. With one capture `foo` the result
-    is `foo-` (`$11` is out of range and expands to nothing; before the repair the textual
-    `ReplaceAll("$1", "%s")` also hit the head of `$11`, giving `foo-%!s(MISSING)1`); with eleven
-    captures `c1` … `c11` it is `c1-c11`. Both are the documented expansion. The general statement is
-    `glob_format_eq_spec_partial`, whose guard no longer asks the reference texts to be prefix-free. -/
+/-- Repair b74fba2 (`template_ref_prefix_of_ref`): `$1-$11`. With one capture `foo` the result is `foo-`
+    (`$11` is out of range; before, `ReplaceAll("$1", "%s")` also hit the head of `$11`:
+    `foo-%!s(MISSING)1`); with eleven captures `c1` … `c11` it is `c1-c11`. Both as documented. -/
 theorem ref_prefix_repaired :
     ((compileTemplate [36, 49, 45, 36, 49, 49] 1).format [[102, 111, 111]] = some [102, 111, 111, 45] ∧
-      expandSpec [[102, 111, 111]] 6 [36, 49, 45, 36, 49, 49] = [102, 111, 111, 45]) ∧
+      expandSpec [[102, 111, 111]] 6 [36, 49, 45, 36, 49, 49] = some [102, 111, 111, 45]) ∧
     ((compileTemplate [36, 49, 45, 36, 49, 49] 11).format
         [[99, 49], [99, 50], [99, 51], [99, 52], [99, 53], [99, 54], [99, 55], [99, 56], [99, 57],
          [99, 49, 48], [99, 49, 49]] = some [99, 49, 45, 99, 49, 49] ∧
       expandSpec
         [[99, 49], [99, 50], [99, 51], [99, 52], [99, 53], [99, 54], [99, 55], [99, 56], [99, 57],
-         [99, 49, 48], [99, 49, 49]] 6 [36, 49, 45, 36, 49, 49] = [99, 49, 45, 99, 49, 49]) := by
+         [99, 49, 48], [99, 49, 49]] 6 [36, 49, 45, 36, 49, 49] = some [99, 49, 45, 99, 49, 49]) := by
   decide
 
-/-- A template whose references are all unusable still goes through `Sprintf` (without arguments),
-    which un-escapes the `%%` again: `100%$5` with two captures and `100%$foo` give `100%`, as
-    documented — and so does the reference-free `100%`, which is returned as it is, unescaped. -/
-theorem unusable_refs_unescape :
-    (compileTemplate [49, 48, 48, 37, 36, 53] 2).format [[97], [98]] = some [49, 48, 48, 37] ∧
-    expandSpec [[97], [98]] 6 [49, 48, 48, 37, 36, 53] = [49, 48, 48, 37] ∧
-    (compileTemplate [49, 48, 48, 37, 36, 102, 111, 111] 2).format [[97], [98]] = some [49, 48, 48, 37] ∧
-    expandSpec [[97], [98]] 8 [49, 48, 48, 37, 36, 102, 111, 111] = [49, 48, 48, 37] ∧
-    (compileTemplate [49, 48, 48, 37] 2).format [[97], [98]] = some [49, 48, 48, 37] := by decide
-
-/-- The remaining divergences from the documented (`regexp.Expand`) syntax, found while choosing the
-    guard (model-level; each is excluded by `SafeTemplate`). All four survive both repairs (4d631d3 of
-    the reference regex — the first with a different value — and b74fba2, which does not touch the
-    reference syntax):
-    `$$` is not an escape (since the repair the first `$` starts no reference, nor does the second:
-    both are copied, `$$`; before the repair the whole `$$` was a reference named `$` and dropped);
-    `$01` is read by `strconv.Atoi` as capture 1, while `regexp.Expand` rejects leading zeros;
-    an unclosed `${1` is accepted; a stray `}` after a bare `$1` is swallowed. -/
-theorem further_divergences :
-    ((compileTemplate [36, 36] 0).format [] = some [36, 36] ∧ expandSpec [] 2 [36, 36] = [36]) ∧
-    ((compileTemplate [36, 48, 49] 1).format [[102]] = some [102] ∧ expandSpec [[102]] 3 [36, 48, 49] = []) ∧
-    ((compileTemplate [36, 123, 49] 1).format [[102]] = some [102] ∧
-        expandSpec [[102]] 3 [36, 123, 49] = [36, 123, 49]) ∧
-    ((compileTemplate [36, 49, 125] 1).format [[102]] = some [102] ∧
-        expandSpec [[102]] 3 [36, 49, 125] = [102, 125]) := by decide
-
-/-- A divergence the repair makes reachable inside a template with a reference: `$$1` with one
-    capture `f` gives `$f` (the first `$` is copied, `$1` is a reference), documented: `$1`
-    (`$$` is the escape). Before the repair `$$1` was one reference named `$1` and gave ``. -/
-theorem dollar_escape_counterexample :
-    (compileTemplate [36, 36, 49] 1).format [[102]] = some [36, 102] ∧
-    expandSpec [[102]] 3 [36, 36, 49] = [36, 49] := by decide
-
-/-- Divergence `template_unicode_letter_after_ref`: `$1é` (`é` = C3 A9, a Unicode letter) with one
-    capture `f`. The glob formatter's regex and the documented syntax take the ASCII name `1` and copy
-    `é`: `fé`. Go's `regexp.Expand`, used for regex rules, scans the name rune by rune: the name is
-    `1é`, neither a number nor a group name, and the reference expands to nothing. (Here glob side and
-    specification agree; it is the regex side that differs from both.) -/
-theorem unicode_letter_after_ref_counterexample :
-    (compileTemplate [36, 49, 0xC3, 0xA9] 1).format [[102]] = some [102, 0xC3, 0xA9] ∧
-    expandSpec [[102]] 4 [36, 49, 0xC3, 0xA9] = [102, 0xC3, 0xA9] ∧
-    rxExpand [([], some [102]), ([], some [102])] 4 [36, 49, 0xC3, 0xA9] = some [] := by decide
-
-/-- Hence the unguarded statement is false, also after all three repairs: refuted by `$$`, which the
-    documented syntax reads as an escaped `$` and the formatter copies — and equally by `$01`, `${1`,
-    `$1}`, `$$1`, see `glob_format_statement_false'`. (Not any more by `100%-$1` or `$1-$11`:
-    `percent_literal_repaired`, `ref_prefix_repaired`.) -/
-theorem glob_format_statement_false : ¬ glob_format_statement := by
-  intro h
-  have h1 := h [36, 36] []
-  rw [show ([] : List Bytes).length = 0 from rfl, further_divergences.1.1,
-    show ([36, 36] : Bytes).length = 2 from rfl, further_divergences.1.2] at h1
-  revert h1
+/-- Repair a7bcc3e (`template_dollar_escape`, `template_brace_mismatch`, `template_leading_zero_ref`,
+    `template_unicode_letter_after_ref`): the six corners in which the formatter's own reference syntax
+    differed from `regexp.Expand`'s, with one capture `f`. Formatter, specification and (with the regex
+    match `[whole, f]`) `regexp.Expand` now all give
+    `$$` ↦ `$` (was `$$`), `$$1` ↦ `$1` (was `$f`), `${1` ↦ `${1` (was `f`), `$1}` ↦ `f}` (was `f`),
+    `$01` ↦ `` (was `f`), `$1é` ↦ `` (the name is `1é`; the formatter gave `fé`). -/
+theorem reference_syntax_repaired :
+    let m : RxMatch := [([], some [119]), ([], some [102])]
+    ((compileTemplate [36, 36] 1).format [[102]] = some [36] ∧
+      expandSpec [[102]] 2 [36, 36] = some [36] ∧ rxExpand m 2 [36, 36] = some [36]) ∧
+    ((compileTemplate [36, 36, 49] 1).format [[102]] = some [36, 49] ∧
+      expandSpec [[102]] 3 [36, 36, 49] = some [36, 49] ∧ rxExpand m 3 [36, 36, 49] = some [36, 49]) ∧
+    ((compileTemplate [36, 123, 49] 1).format [[102]] = some [36, 123, 49] ∧
+      expandSpec [[102]] 3 [36, 123, 49] = some [36, 123, 49] ∧ rxExpand m 3 [36, 123, 49] = some [36, 123, 49]) ∧
+    ((compileTemplate [36, 49, 125] 1).format [[102]] = some [102, 125] ∧
+      expandSpec [[102]] 3 [36, 49, 125] = some [102, 125] ∧ rxExpand m 3 [36, 49, 125] = some [102, 125]) ∧
+    ((compileTemplate [36, 48, 49] 1).format [[102]] = some [] ∧
+      expandSpec [[102]] 3 [36, 48, 49] = some [] ∧ rxExpand m 3 [36, 48, 49] = some []) ∧
+    ((compileTemplate [36, 49, 0xC3, 0xA9] 1).format [[102]] = some [] ∧
+      expandSpec [[102]] 4 [36, 49, 0xC3, 0xA9] = some [] ∧ rxExpand m 4 [36, 49, 0xC3, 0xA9] = some []) := by
   decide
 
-/-- the same refutation from another remaining corner alone, the leading zero `$01` (the corners are
-    independent) -/
-theorem glob_format_statement_false' : ¬ glob_format_statement := by
-  intro h
-  have h1 := h [36, 48, 49] [[102]]
-  rw [show ([[102]] : List Bytes).length = 1 from rfl, further_divergences.2.1.1,
-    show ([36, 48, 49] : Bytes).length = 3 from rfl, further_divergences.2.1.2] at h1
-  revert h1
-  decide
-
-/-- **`Format` is total.** For every template, every capture count and every capture list — no guard —
-    the formatter's result is inside the modelled fragment of `fmt.Sprintf` (`%s`, `%%`): since b74fba2
-    every `%` of the template is escaped, and the single substitution pass only copies bytes and
-    replaces references (which contain no `%`) by `%s` or by nothing, so the format string consists of
-    `%%`, `%s` and non-`%` bytes only. (Before the repair `100%-$1` gave `none`, "unmodelled".) -/
-theorem format_total (tmpl : Bytes) (n : Nat) (caps : List Bytes) :
-    ((compileTemplate tmpl n).format caps).isSome = true :=
-  compileTemplate_format_isSome tmpl n caps
-
-/-- `%`-escaping does not touch the references: the formatter's regex finds the same (match, name)
-    pairs in the escaped template as in the original one (the escaping only doubles `%`, which occurs
-    neither in `$`, `{`, `}` nor in a name). -/
-theorem escape_preserves_refs (tmpl : Bytes) :
-    findRefs (escapePct tmpl).length (escapePct tmpl) = findRefs tmpl.length tmpl :=
-  findRefs_escapePct_self tmpl
-
-/-- Templates in which the formatter's regex `\$\{?([a-zA-Z0-9_]+)\}?` finds nothing are returned
-    verbatim — whatever else they contain (`%`, a trailing `$`, `$-`, `${}`, `$$` …) and whatever the
-    captures are — and, if the template contains no `$$`, that is also what the documented syntax
-    gives. (The hypothesis `hasDollarDollar tmpl = false` is new and needed since the repair: `$$`
-    is no longer a "reference", see `further_divergences`.) -/
-theorem no_ref_identity (tmpl : Bytes) (n : Nat) (caps : List Bytes) (h : findRefs tmpl.length tmpl = [])
-    (hdd : hasDollarDollar tmpl = false) :
-    (compileTemplate tmpl n).format caps = some tmpl ∧ expandSpec caps tmpl.length tmpl = tmpl :=
-  ⟨compile_no_refs tmpl n caps h, findRefs_nil_expandSpec caps _ _ h hdd⟩
-
-/-- the first half needs no hypothesis about `$$` -/
-theorem no_ref_verbatim (tmpl : Bytes) (n : Nat) (caps : List Bytes) (h : findRefs tmpl.length tmpl = []) :
-    (compileTemplate tmpl n).format caps = some tmpl := compile_no_refs tmpl n caps h
-
-/-- in particular every template without a `$` -/
-theorem no_dollar_identity (tmpl : Bytes) (n : Nat) (caps : List Bytes) (h : cDollar ∉ tmpl) :
-    (compileTemplate tmpl n).format caps = some (expandSpec caps tmpl.length tmpl) := by
-  obtain ⟨h1, h2⟩ := no_ref_identity tmpl n caps (findRefs_no_dollar _ _ h) (hasDollarDollar_no_dollar _ h)
-  rw [h1, h2]
-
-/-- **Partial C11, segment form.** For every list of literal pieces and numeric references that
-    satisfies `SafeSegs` — any number of references, repeated and non-numeric ones allowed — and for a rule
-    with `n` wildcards handing over at most `n` captures, the (repaired) formatter outputs exactly
-    the documented expansion (never `none`). References larger than `n`, and `$0`, expand to
-    nothing on both sides. -/
-theorem glob_format_eq_spec_segs (segs : List Seg) (caps : List Bytes) (n : Nat)
-    (hs : SafeSegs segs = true) (hc : caps.length ≤ n) :
-    (compileTemplate (flatSegs segs) n).format caps =
-      some (expandSpec caps (flatSegs segs).length (flatSegs segs)) :=
-  glob_format_segs segs caps n hs hc
-
-/-- **Partial C11** under the decidable guard `SafeTemplate tmpl`: the template reads as literals
-    without `$` (`%` and every other byte allowed) and references `$name`/`${name}` (`name` ∈
-    `[A-Za-z0-9_]+`, either a decimal number of ≤ 8 digits without leading zero or not purely
-    numeric); a bare `$name` is followed by the end or an ASCII byte outside `[a-zA-Z0-9_}]` (so `$`,
-    i.e. the next reference, may follow directly; the restriction to ASCII is not needed for this
-    theorem, it is what `glob_regex_agree_partial` needs). Since the repair b74fba2 nothing is asked
-    about `%` or about reference texts being prefixes of each other. The result is `some …` also when
-    the template has references none of which is usable (`$5` with two captures, `$foo`): then
-    `Format` runs `Sprintf` without arguments, which un-escapes the literals (`unusable_refs_unescape`). -/
-theorem glob_format_eq_spec_partial (tmpl : Bytes) (caps : List Bytes) (n : Nat)
-    (hs : SafeTemplate tmpl = true) (hc : caps.length ≤ n) :
-    (compileTemplate tmpl n).format caps = some (expandSpec caps tmpl.length tmpl) := by
-  unfold SafeTemplate at hs
-  simp only [Bool.and_eq_true, beq_iff_eq] at hs
-  obtain ⟨hflat, hsafe⟩ := hs
-  have := glob_format_segs _ caps n hsafe hc
-  rw [hflat] at this
-  exact this
+/-- Outside the modelled Unicode fragment nothing is claimed, by anybody: `$1α` (`α` = CE B1, lead byte
+    0xCE) is flagged by the formatter model, and formatter, specification and `regexp.Expand` answer
+    `none`. An invalid byte (0xFF) ends the name like any non-letter: `$1\xff` ↦ `f\xff`. -/
+theorem unmodelled_is_flagged :
+    (compileTemplate [36, 49, 0xCE, 0xB1] 1).unmodelled = true ∧
+    (compileTemplate [36, 49, 0xCE, 0xB1] 1).format [[102]] = none ∧
+    expandSpec [[102]] 4 [36, 49, 0xCE, 0xB1] = none ∧
+    rxExpand [([], some [119]), ([], some [102])] 4 [36, 49, 0xCE, 0xB1] = none ∧
+    (compileTemplate [36, 49, 0xFF] 1).format [[102]] = some [102, 0xFF] ∧
+    expandSpec [[102]] 3 [36, 49, 0xFF] = some [102, 0xFF] := by decide
 
 /-! ### regex side -/
 
-/-- **`regexp.Expand` = specification**, for every match `m` and every template `t` in which no
-    reference name and no lone `$` is directly followed by a byte ≥ 0x80 (`refsAsciiFollowed`, a
-    `Bool`; literal text may contain non-ASCII bytes elsewhere), provided every reference name the
-    scan meets is "good": numeric names are not `0`, non-numeric names are not the name of a
-    participating group of `m`. Captures are numbered from group 1; a group that did not participate
-    counts as empty (no participation hypothesis is needed). In particular the template is inside
-    the modelled fragment (`some`). -/
+/-- **`regexp.Expand` = specification**, for every match `m` and every template `t`, provided every
+    reference name the scan meets (`refNames`, rune-aware) is "good" for `m`: a numeric name is not `0`,
+    a non-numeric name is not the name of a participating group of `m` — group 0 and named groups are
+    what the specification leaves out. Captures are numbered from group 1; a group that did not
+    participate counts as empty. Equality of `Option`s: `none` on both sides exactly when a name has an
+    unmodelled rune. -/
 theorem regex_expand_eq_spec (m : RxMatch) (t : Bytes)
-    (h : ∀ name ∈ refNames t.length t, refGood m name)
-    (ha : refsAsciiFollowed t.length t = true) :
-    rxExpand m t.length t = some (expandSpec (capsOf m) t.length t) :=
-  rxExpand_eq_expandSpec m t.length t h ha
+    (h : ∀ name ∈ refNames t.length t, refGood m name) :
+    rxExpand m t.length t = expandSpec (capsOf m) t.length t :=
+  rxExpand_eq_expandSpec m t.length t h
 
-/-- Without `refsAsciiFollowed` the statement is false: `$1é`. -/
-theorem regex_expand_unguarded_false :
-    ¬ ∀ (m : RxMatch) (t : Bytes), (∀ name ∈ refNames t.length t, refGood m name) →
-        rxExpand m t.length t = some (expandSpec (capsOf m) t.length t) := by
-  intro h
-  have hr : refNames 4 [36, 49, 0xC3, 0xA9] = [[49]] := by decide
-  have h1 := h [([], some [102]), ([], some [102])] [36, 49, 0xC3, 0xA9] (by
-    intro name hn
-    rw [show ([36, 49, 0xC3, 0xA9] : Bytes).length = 4 from rfl, hr, List.mem_singleton] at hn
-    subst hn
-    show (1 : Nat) ≠ 0
-    decide)
-  rw [show ([36, 49, 0xC3, 0xA9] : Bytes).length = 4 from rfl,
-    unicode_letter_after_ref_counterexample.2.2] at h1
-  revert h1
-  decide
-
-/-- The usual case: all groups of the regex are unnamed and the template does not mention `$0`. -/
+/-- The usual case, and the one the regex translation of a glob rule produces: all groups of the regex
+    are unnamed; the template does not mention `$0`. -/
 theorem regex_expand_eq_spec_unnamed (m : RxMatch) (t : Bytes)
     (hun : ∀ g ∈ m, g.1 = [])
-    (h0 : ∀ name ∈ refNames t.length t, rxNum name ≠ some 0)
-    (ha : refsAsciiFollowed t.length t = true) :
-    rxExpand m t.length t = some (expandSpec ((m.drop 1).map (·.2.getD [])) t.length t) := by
-  apply regex_expand_eq_spec _ _ _ ha
-  intro name hn
-  unfold refGood
-  cases hk : rxNum name with
-  | some k => simp only; intro e; exact h0 name hn (by rw [hk, e])
-  | none =>
-    simp only
-    rw [List.find?_eq_none]
-    intro g hg hp
-    simp only [Bool.and_eq_true, beq_iff_eq] at hp
-    have := mem_refNames_ne_nil _ _ _ hn
-    rw [← hp.1, hun g hg] at this
-    exact this rfl
+    (h0 : ∀ name ∈ refNames t.length t, rxNum name ≠ some 0) :
+    rxExpand m t.length t = expandSpec (capsOf m) t.length t :=
+  regex_expand_eq_spec m t (refGood_of_unnamed m _ _ hun h0)
+
+/-- Group 0 is outside C11 (captures are numbered from 1): for `$0` the regex side puts the whole match,
+    specification and glob formatter nothing (the formatter reads "capture 0" as out of range). -/
+theorem dollar_zero_is_outside :
+    rxExpand [([], some [119]), ([], some [102])] 2 [36, 48] = some [119] ∧
+    expandSpec [[102]] 2 [36, 48] = some [] ∧
+    (compileTemplate [36, 48] 1).format [[102]] = some [] ∧
+    refNames 2 [36, 48] = [[48]] ∧ rxNum [48] = some 0 := by decide
+
+/-- Named groups are outside C11 (a glob rule has none): `$foo` with a group named `foo`. -/
+theorem named_group_is_outside :
+    rxExpand [([], some [119]), ([102, 111, 111], some [120])] 4 [36, 102, 111, 111] = some [120] ∧
+    expandSpec [[120]] 4 [36, 102, 111, 111] = some [] ∧
+    refNames 4 [36, 102, 111, 111] = [[102, 111, 111]] := by decide
 
 /-- a template without `$` is copied by `regexp.Expand` whatever bytes it contains, and that is the
     documented expansion -/
 theorem regex_no_dollar_identity (m : RxMatch) (t : Bytes) (caps : List Bytes) (h : cDollar ∉ t) :
-    rxExpand m t.length t = some t ∧ expandSpec caps t.length t = t :=
-  ⟨rxExpand_no_dollar m _ _ h,
-   findRefs_nil_expandSpec caps _ _ (findRefs_no_dollar _ _ h) (hasDollarDollar_no_dollar _ h)⟩
+    rxExpand m t.length t = some t ∧ expandSpec caps t.length t = some t :=
+  ⟨rxExpand_no_dollar m _ _ h, expandSpec_no_dollar caps _ _ h⟩
 
-/-- a safe template satisfies the regex-side guard (this is what the clause "ASCII after a bare
-    reference name" of `SafeTemplate` is for) -/
-theorem safe_refsAsciiFollowed (tmpl : Bytes) (hs : SafeTemplate tmpl = true) :
-    refsAsciiFollowed tmpl.length tmpl = true := by
-  unfold SafeTemplate at hs
-  simp only [Bool.and_eq_true, beq_iff_eq] at hs
-  obtain ⟨hflat, hsafe⟩ := hs
-  unfold SafeSegs at hsafe
-  simp only [Bool.and_eq_true] at hsafe
-  have := refsAsciiFollowed_flat _ _ (List.all_eq_true.mp hsafe.1) hsafe.2 (Nat.le_refl _)
-  rw [hflat] at this
-  exact this
+/-! ### glob and regex rules agree -/
 
-/-- **Glob and regex rules agree** on safe templates: if a regex rule with unnamed groups captures
-    what the glob rule captures (`caps` = groups 1.. of `m`; this is the translated-regex contract,
-    a hypothesis here) and the template does not mention `$0`, both rules produce the same text
-    (and both are inside their modelled fragments). -/
-theorem glob_regex_agree_partial (tmpl : Bytes) (m : RxMatch) (n : Nat)
-    (hs : SafeTemplate tmpl = true) (hc : (capsOf m).length ≤ n)
+/-- **A glob rule and its regex translation expand every template identically.** `m` is the match of
+    the translated regex: unnamed groups, group 0 the whole match, groups 1.. the captures (`capsOf m`;
+    a group that did not participate — impossible for the translation's `([^.]*)` groups — counts as
+    empty), none beyond the glob rule's capture count `n`; the template does not mention `$0`
+    (`dollar_zero_is_outside`). Equality of `Option`s. -/
+theorem glob_regex_agree (tmpl : Bytes) (m : RxMatch) (n : Nat)
     (hun : ∀ g ∈ m, g.1 = [])
+    (hcaps : ∀ i, n ≤ i → (capsOf m).getD i [] = [])
     (h0 : ∀ name ∈ refNames tmpl.length tmpl, rxNum name ≠ some 0) :
-    (compileTemplate tmpl n).format (capsOf m) = rxExpand m tmpl.length tmpl ∧
-    (rxExpand m tmpl.length tmpl).isSome = true := by
-  rw [glob_format_eq_spec_partial tmpl (capsOf m) n hs hc,
-    regex_expand_eq_spec_unnamed m tmpl hun h0 (safe_refsAsciiFollowed tmpl hs)]
-  exact ⟨rfl, rfl⟩
+    (compileTemplate tmpl n).format (capsOf m) = rxExpand m tmpl.length tmpl := by
+  rw [glob_format_eq_spec tmpl n (capsOf m) hcaps, regex_expand_eq_spec_unnamed m tmpl hun h0]
 
-/- Non-vacuity: the guard accepts real templates with several, adjacent-to-literal, adjacent-to-each-other
-   and repeated references, since b74fba2 also literal `%` and reference texts that are prefixes of each other,
-   rejects the remaining syntax corners (`$$`, `$01`, `${1`, `$1}`, `$1é`), and the theorem's two sides are what
-   one expects. -/
-example : SafeTemplate (strBytes "a_$1.b${2}$3-c") = true := by with_unfolding_all decide
-example : SafeTemplate (strBytes "${1}${2}") = true ∧ SafeTemplate (strBytes "$1.$1-${10}") = true := by
-  with_unfolding_all decide
-example : SafeTemplate (strBytes "foo_$1_bar.${2}") = true ∧ SafeTemplate (strBytes "$foo") = true := by
-  with_unfolding_all decide
--- accepted since the repair b74fba2 (the weaker guard): literal `%`, `$1` next to `$11`
-example : SafeTemplate (strBytes "100%-$1") = true ∧ SafeTemplate (strBytes "$1-$11") = true ∧
-          SafeTemplate (strBytes "%d$2%%$1") = true ∧ SafeTemplate (strBytes "50%s-$1") = true ∧
-          SafeTemplate (strBytes "100%$5") = true := by with_unfolding_all decide
--- still rejected: the remaining syntax corners
-example : SafeTemplate (strBytes "$$") = false ∧ SafeTemplate (strBytes "$$1") = false ∧
-          SafeTemplate (strBytes "$1}") = false ∧ SafeTemplate (strBytes "$01") = false ∧
-          SafeTemplate (strBytes "${1") = false ∧ SafeTemplate [36, 49, 0xC3, 0xA9] = false := by
-  with_unfolding_all decide
--- "%d$2%%$1" with a, b ↦ "%db%%a" on both sides (nothing in the literals is interpreted by `Sprintf`)
-example : (compileTemplate [37, 100, 36, 50, 37, 37, 36, 49] 2).format [[97], [98]] = some [37, 100, 98, 37, 37, 97] ∧
-    expandSpec [[97], [98]] 8 [37, 100, 36, 50, 37, 37, 36, 49] = [37, 100, 98, 37, 37, 97] := by decide
--- adjacent references are accepted since the repair (bare–bare, bare–braced, braced–bare):
-example : SafeTemplate (strBytes "$1$2") = true ∧ SafeTemplate (strBytes "x_$1$2_${3}$1") = true := by
-  with_unfolding_all decide
-example : SafeTemplate (strBytes "x_$1$2.${3}$1") = true ∧ SafeTemplate (strBytes "$1${2}$3$foo$1") = true := by
-  with_unfolding_all decide
--- "x_$1$2.${3}$1" with a, b, c ↦ "x_ab.ca"
+/-- … in the shape the translation guarantees: a glob pattern with `n` wildcards becomes a regex with
+    `n` groups, `m` has `n + 1` entries (`≤` suffices). -/
+theorem glob_regex_agree_len (tmpl : Bytes) (m : RxMatch) (n : Nat)
+    (hun : ∀ g ∈ m, g.1 = [])
+    (hlen : m.length ≤ n + 1)
+    (h0 : ∀ name ∈ refNames tmpl.length tmpl, rxNum name ≠ some 0) :
+    (compileTemplate tmpl n).format (capsOf m) = rxExpand m tmpl.length tmpl := by
+  apply glob_regex_agree tmpl m n hun _ h0
+  intro i hi
+  have := capsOf_length m
+  rw [List.getD_eq_getElem?_getD, List.getElem?_eq_none (by omega)]
+  rfl
+
+/-- both sides are the specification -/
+theorem glob_regex_agree_spec (tmpl : Bytes) (m : RxMatch) (n : Nat)
+    (hun : ∀ g ∈ m, g.1 = [])
+    (hlen : m.length ≤ n + 1)
+    (h0 : ∀ name ∈ refNames tmpl.length tmpl, rxNum name ≠ some 0) :
+    (compileTemplate tmpl n).format (capsOf m) = expandSpec (capsOf m) tmpl.length tmpl ∧
+    rxExpand m tmpl.length tmpl = expandSpec (capsOf m) tmpl.length tmpl :=
+  ⟨by rw [glob_regex_agree_len tmpl m n hun hlen h0]; exact regex_expand_eq_spec_unnamed m tmpl hun h0,
+   regex_expand_eq_spec_unnamed m tmpl hun h0⟩
+
+/-! ### on the level of the mapper's glob lookup -/
+
+/-- the captures of a pattern are at most its wildcards -/
+theorem capturesOf_length_le : ∀ (pat name : Pat), (capturesOf pat name).length ≤ countStars pat := by
+  intro pat
+  induction pat with
+  | nil => intro name; simp [capturesOf]
+  | cons p ps ih =>
+    intro name
+    cases name with
+    | nil => simp [capturesOf]
+    | cons c cs =>
+      have := ih cs
+      unfold countStars at this ⊢
+      by_cases hp : (p == starB) = true
+      · simp only [capturesOf, List.filter_cons, hp, if_true, List.length_cons]; omega
+      · simp only [capturesOf, List.filter_cons, hp]; exact this
+
+/-- **`lookupGlob` expands as documented** (either mode, every configuration): the name and the label
+    values of the mapping returned are the documented expansions of the winning rule's templates with
+    the first `captureCount` captures the FSM reports. -/
+theorem lookupGlob_expands (cfg : Config V) (name : Bytes) (ty : Nat) (m : Mapped)
+    (hm : lookupGlob cfg name ty = some m) :
+    ∃ f i r, globLookup (toGRules cfg) cfg.orderingDisabled (splitOn 46 name) ty = some f ∧
+      (globRules cfg)[f.rule]? = some (i, r) ∧
+      m = { ruleIdx := i,
+            name := expandSpec (f.caps.take r.captureCount) r.name.length r.name,
+            labels := r.labels.map fun (k, t) => (k, expandSpec (f.caps.take r.captureCount) t.length t) } := by
+  unfold lookupGlob at hm
+  split at hm
+  · cases hm
+  · rename_i f hf
+    split at hm
+    · cases hm
+    · rename_i i r hr
+      refine ⟨f, i, r, hf, hr, ?_⟩
+      simp only [Option.some.injEq] at hm
+      rw [← hm]
+      simp only [glob_format_eq_spec_take]
+
+/-- **C11 for glob rules, end to end** (ordered mode): the mapping returned for a name is the first
+    matching glob rule `r`, and its name and label values are the documented expansions of `r`'s
+    templates with the name components under the `*`s of `r`'s pattern — for every configuration whose
+    rules have at least as many capture slots as wildcards (`load` sets `captureCount := countStars pat`). -/
+theorem glob_lookup_expands (cfg : Config V) (hord : cfg.orderingDisabled = false)
+    (hcc : ∀ r ∈ cfg.rules, countStars r.pat ≤ r.captureCount)
+    (name : Bytes) (ty : Nat) (m : Mapped) (hm : lookupGlob cfg name ty = some m) :
+    ∃ i r, firstGlob cfg name ty = some i ∧ cfg.rules[i]? = some r ∧
+      ruleMatchesGlob r (splitOn 46 name) ty = true ∧
+      m = { ruleIdx := i,
+            name := expandSpec (capturesOf r.pat (splitOn 46 name)) r.name.length r.name,
+            labels := r.labels.map fun (k, t) =>
+              (k, expandSpec (capturesOf r.pat (splitOn 46 name)) t.length t) } := by
+  obtain ⟨i, r, h1, h2, h3, h4⟩ := SE.Props.C04.glob_captures cfg hord name ty m hm
+  refine ⟨i, r, h1, h2, h3, ?_⟩
+  have hle : (capturesOf r.pat (splitOn 46 name)).length ≤ r.captureCount :=
+    Nat.le_trans (capturesOf_length_le _ _) (hcc r (List.mem_of_getElem? h2))
+  rw [h4]
+  simp only [glob_format_eq_spec_le _ _ _ hle]
+
+/-! ### non-vacuity: what the two sides are on real templates -/
+
+-- "x_$1$2.${3}$1" with a, b, c ↦ "x_ab.ca": several, adjacent, braced and repeated references
 example : (compileTemplate [120, 95, 36, 49, 36, 50, 46, 36, 123, 51, 125, 36, 49] 3).format [[97], [98], [99]]
+    = some [120, 95, 97, 98, 46, 99, 97] ∧
+    expandSpec [[97], [98], [99]] 13 [120, 95, 36, 49, 36, 50, 46, 36, 123, 51, 125, 36, 49]
     = some [120, 95, 97, 98, 46, 99, 97] := by decide
--- "x_$1$2_${3}$1" ↦ "x_aca" on both sides: the second reference is `$2_` (longest name), which names no capture
+-- "x_$1$2_${3}$1" ↦ "x_aca": the second reference is `$2_` (longest name), which names no capture
 example : (compileTemplate [120, 95, 36, 49, 36, 50, 95, 36, 123, 51, 125, 36, 49] 3).format [[97], [98], [99]]
     = some [120, 95, 97, 99, 97] ∧
-    expandSpec [[97], [98], [99]] 13 [120, 95, 36, 49, 36, 50, 95, 36, 123, 51, 125, 36, 49] = [120, 95, 97, 99, 97] := by
-  decide
-example : (compileTemplate [97, 36, 49, 46, 36, 123, 50, 125, 36, 49] 2).format [[120], [121, 122]]
-    = some [97, 120, 46, 121, 122, 120] := by decide                    -- "a$1.${2}$1" ↦ "ax.yzx"
-example : rxExpand [([], some [119]), ([], some [120]), ([], none)] 8 [36, 49, 45, 36, 123, 50, 125, 33]
-    = some [120, 45, 33] := by decide                                   -- "$1-${2}!" ↦ "x-!"
-example : refNames 9 [36, 49, 45, 36, 123, 49, 50, 125, 36] = [[49], [49, 50]] := by decide
-
-
-/- Non-ASCII bytes: a non-ASCII literal that does not directly follow a bare reference name is accepted
-   by the strengthened guard (`é$1-x`, `${1}é`, `$1-é`), directly after a bare name it is not (`$1é`);
-   likewise for the regex-side guard, which also rejects `${1é}` and `$é`. -/
-example : SafeTemplate [0xC3, 0xA9, 36, 49, 45, 120] = true ∧               -- "é$1-x"
-          SafeTemplate [36, 123, 49, 125, 0xC3, 0xA9] = true ∧              -- "${1}é"
-          SafeTemplate [36, 49, 45, 0xC3, 0xA9] = true ∧                    -- "$1-é"
-          SafeTemplate [36, 49, 0xC3, 0xA9] = false := by                   -- "$1é"
-  with_unfolding_all decide
-example : refsAsciiFollowed 6 [0xC3, 0xA9, 36, 49, 45, 120] = true ∧        -- "é$1-x"
-          refsAsciiFollowed 6 [36, 123, 49, 125, 0xC3, 0xA9] = true ∧       -- "${1}é"
-          refsAsciiFollowed 4 [36, 49, 0xC3, 0xA9] = false ∧                -- "$1é"
-          refsAsciiFollowed 7 [36, 123, 49, 0xC3, 0xA9, 125, 45] = false ∧  -- "${1é}-"
-          refsAsciiFollowed 3 [36, 0xC3, 0xA9] = false := by decide         -- "$é"
--- "é$1-x" and "${1}é" with capture `f`: all three sides agree
+    expandSpec [[97], [98], [99]] 13 [120, 95, 36, 49, 36, 50, 95, 36, 123, 51, 125, 36, 49]
+    = some [120, 95, 97, 99, 97] := by decide
+-- "$1-$5-$foo-${ab}-$0|" with two captures a, b ↦ "a----|": out-of-range, named and `$0` references
+-- expand to nothing on both sides
+example : (compileTemplate [36, 49, 45, 36, 53, 45, 36, 102, 111, 111, 45, 36, 123, 97, 98, 125, 45, 36, 48, 124] 2).format
+      [[97], [98]] = some [97, 45, 45, 45, 45, 124] ∧
+    expandSpec [[97], [98]] 20 [36, 49, 45, 36, 53, 45, 36, 102, 111, 111, 45, 36, 123, 97, 98, 125, 45, 36, 48, 124]
+    = some [97, 45, 45, 45, 45, 124] := by decide
+-- "%d$2%%$1" with a, b ↦ "%db%%a" (nothing in the literals is interpreted by `Sprintf`)
+example : (compileTemplate [37, 100, 36, 50, 37, 37, 36, 49] 2).format [[97], [98]] = some [37, 100, 98, 37, 37, 97] ∧
+    expandSpec [[97], [98]] 8 [37, 100, 36, 50, 37, 37, 36, 49] = some [37, 100, 98, 37, 37, 97] := by decide
+-- a template whose references are all unusable still goes through `Sprintf`, which un-escapes `%%`:
+-- "100%$5" and "100%$foo" with two captures ↦ "100%"; the reference-free "100%" is returned as it is
+example : (compileTemplate [49, 48, 48, 37, 36, 53] 2).format [[97], [98]] = some [49, 48, 48, 37] ∧
+    expandSpec [[97], [98]] 6 [49, 48, 48, 37, 36, 53] = some [49, 48, 48, 37] ∧
+    (compileTemplate [49, 48, 48, 37, 36, 102, 111, 111] 2).format [[97], [98]] = some [49, 48, 48, 37] ∧
+    expandSpec [[97], [98]] 8 [49, 48, 48, 37, 36, 102, 111, 111] = some [49, 48, 48, 37] ∧
+    (compileTemplate [49, 48, 48, 37] 2).format [[97], [98]] = some [49, 48, 48, 37] ∧
+    (compileTemplate [49, 48, 48, 37] 2).literal = true := by decide
+-- a lone `$`, `$-`, `${}` are copied: "a$-${}$" ↦ itself
+example : (compileTemplate [97, 36, 45, 36, 123, 125, 36] 1).format [[102]] = some [97, 36, 45, 36, 123, 125, 36] ∧
+    expandSpec [[102]] 7 [97, 36, 45, 36, 123, 125, 36] = some [97, 36, 45, 36, 123, 125, 36] := by decide
+-- non-ASCII text: "é$1-x" ↦ "éf-x", "${1}é" ↦ "fé" (braces end the name), all three sides
 example : (compileTemplate [0xC3, 0xA9, 36, 49, 45, 120] 1).format [[102]] = some [0xC3, 0xA9, 102, 45, 120] ∧
-          expandSpec [[102]] 6 [0xC3, 0xA9, 36, 49, 45, 120] = [0xC3, 0xA9, 102, 45, 120] ∧
-          rxExpand [([], some [119]), ([], some [102])] 6 [0xC3, 0xA9, 36, 49, 45, 120]
-            = some [0xC3, 0xA9, 102, 45, 120] := by decide
-example : (compileTemplate [36, 123, 49, 125, 0xC3, 0xA9] 1).format [[102]] = some [102, 0xC3, 0xA9] ∧
-          rxExpand [([], some [119]), ([], some [102])] 6 [36, 123, 49, 125, 0xC3, 0xA9]
-            = some [102, 0xC3, 0xA9] := by decide
--- the same divergence inside braces: "${1é}" is the (empty) reference `1é` for `regexp.Expand`, malformed
--- (copied) for the documented syntax; "$é" likewise
-example : rxExpand [([], some [119]), ([], some [102])] 6 [36, 123, 49, 0xC3, 0xA9, 125] = some [] ∧
-          expandSpec [[102]] 6 [36, 123, 49, 0xC3, 0xA9, 125] = [36, 123, 49, 0xC3, 0xA9, 125] ∧
-          rxExpand [([], some [119])] 3 [36, 0xC3, 0xA9] = some [] ∧
-          expandSpec [] 3 [36, 0xC3, 0xA9] = [36, 0xC3, 0xA9] := by decide
+    expandSpec [[102]] 6 [0xC3, 0xA9, 36, 49, 45, 120] = some [0xC3, 0xA9, 102, 45, 120] ∧
+    rxExpand [([], some [119]), ([], some [102])] 6 [0xC3, 0xA9, 36, 49, 45, 120]
+      = some [0xC3, 0xA9, 102, 45, 120] ∧
+    (compileTemplate [36, 123, 49, 125, 0xC3, 0xA9] 1).format [[102]] = some [102, 0xC3, 0xA9] ∧
+    expandSpec [[102]] 6 [36, 123, 49, 125, 0xC3, 0xA9] = some [102, 0xC3, 0xA9] ∧
+    rxExpand [([], some [119]), ([], some [102])] 6 [36, 123, 49, 125, 0xC3, 0xA9]
+      = some [102, 0xC3, 0xA9] := by decide
+-- regex side: "$1-${2}!" with group 2 not participating ↦ "x-!"; the names the scan meets
+example : rxExpand [([], some [119]), ([], some [120]), ([], none)] 8 [36, 49, 45, 36, 123, 50, 125, 33]
+    = some [120, 45, 33] ∧
+    expandSpec (capsOf [([], some [119]), ([], some [120]), ([], none)]) 8 [36, 49, 45, 36, 123, 50, 125, 33]
+    = some [120, 45, 33] := by decide
+example : refNames 9 [36, 49, 45, 36, 123, 49, 50, 125, 36] = [[49], [49, 50]] ∧          -- "$1-${12}$"
+          refNames 4 [36, 49, 0xC3, 0xA9] = [[49, 0xC3, 0xA9]] := by decide              -- "$1é": the name is `1é`
 -- a non-ASCII *group name* is looked up byte-wise: "${é}" with a group named `é`
 example : rxExpand [([], some [119]), ([0xC3, 0xA9], some [102])] 5 [36, 123, 0xC3, 0xA9, 125] = some [102] := by
   decide
--- outside the modelled fragment of `nameRune` (lead byte 0xCE: "$1α"): `none`, never a guess;
--- an invalid byte (0xFF) ends the name like any non-letter
-example : rxExpand [([], some [119]), ([], some [102])] 4 [36, 49, 0xCE, 0xB1] = none ∧
-          rxExpand [([], some [119]), ([], some [102])] 3 [36, 49, 0xFF] = some [102, 0xFF] := by decide
+-- the hypotheses of `glob_regex_agree_len` are satisfiable: a match with two unnamed groups, "$1.$2-$3"
+example : let m : RxMatch := [([], some [97, 46, 98]), ([], some [97]), ([], some [98])]
+    (∀ g ∈ m, g.1 = []) ∧ m.length ≤ 2 + 1 ∧
+    (∀ name ∈ refNames 8 [36, 49, 46, 36, 50, 45, 36, 51], rxNum name ≠ some 0) ∧
+    (compileTemplate [36, 49, 46, 36, 50, 45, 36, 51] 2).format (capsOf m) = some [97, 46, 98, 45] ∧
+    rxExpand m 8 [36, 49, 46, 36, 50, 45, 36, 51] = some [97, 46, 98, 45] := by decide
 
 end SE.Props.C11
